@@ -39,7 +39,8 @@ class Report:
 
     def violate(self, key, what, case):
         """`key` names the specific failing input class (matched against known_findings.json)."""
-        if len(self.violations) < 500:
+        # cap per key, so that a high-volume known finding cannot crowd out a different (new) violation
+        if self.dist['violation:' + key] < 25 and len(self.violations) < 3000:
             self.violations.append({'key': key, 'what': what, 'case': case})
         self.dist['violation:' + key] += 1
 
